@@ -17,6 +17,7 @@ files).  Helper definitions (`isCause`, `judgeFile`, `ReportOk`, `FileReportOk`)
 import SltVerif.Lemmas.CliSerial
 import SltVerif.Lemmas.CliReport
 import SltVerif.Lemmas.CliParallel
+import SltVerif.Lemmas.CliCancel
 namespace Slt.C16
 open Slt
 
@@ -194,6 +195,42 @@ theorem parallel_skip_needs_cause {c : DCfg} {ls : List DLabel} {s : DSt}
       ∃ i, (i, FileResult.err) ∈ s.results ∧ (c.failFast = true ∨ s.refused = true) := by
   have hi := drun_resInv ls s h
   exact hi.cause (hi.skipped p hp hs)
+
+/-- **Exit status of a parallel run, for every schedule**: the process result of `run_parallel` is
+`Ok` (exit 0) iff every file was reported `ok` and no Ctrl-C arrived — a failed, skipped or cancelled
+file, or a signal that arrives when every file is already through, makes the run fail. -/
+theorem parallel_exit_zero_iff {c : DCfg} {ls : List DLabel} {s : DSt}
+    (h : drun c (dinit c) ls = some s) :
+    dexitOk s = true ↔ (∀ p ∈ s.results, p.2 = FileResult.ok) ∧ CEv.cancel ∉ s.log := by
+  have hi := drun_resInv ls s h
+  have hl := drun_cancelLogInv ls s h
+  unfold dexitOk
+  simp only [Bool.and_eq_true, Bool.not_eq_true', List.any_eq_false, beq_iff_eq]
+  constructor
+  · rintro ⟨hne, hnc⟩
+    refine ⟨?_, ?_⟩
+    · intro p hp
+      cases hp2 : p.2 with
+      | ok => rfl
+      | err => exact absurd hp2 (hne p hp)
+      | skipped => have := hi.skipped p hp (Or.inl hp2); rw [hnc] at this; cases this
+      | cancelled => have := hi.skipped p hp (Or.inr hp2); rw [hnc] at this; cases this
+    · intro hmem
+      obtain ⟨pre, post, hsplit⟩ := List.append_of_mem hmem
+      have := (hl.2 pre post hsplit).1
+      rw [hnc] at this; cases this
+  · rintro ⟨hok, hnl⟩
+    refine ⟨?_, ?_⟩
+    · intro p hp hpe
+      have := hok p hp
+      rw [hpe] at this; cases this
+    · cases hcz : s.cancelled with
+      | false => rfl
+      | true =>
+        rcases hi.cause hcz with h1 | ⟨i, hmem, _⟩
+        · exact absurd h1 hnl
+        · have := hok (i, FileResult.err) hmem
+          cases this
 
 /-- without fail-fast, refused connections and signals every file gets its own verdict (`ok` or
 `err`) in parallel mode -/
